@@ -8,6 +8,7 @@ mod misc;
 mod oracle;
 mod packedc;
 mod pc;
+mod repr;
 mod sem;
 mod stream;
 
@@ -175,6 +176,8 @@ fn main() {
         "purity" => misc::purity(&args),
         "faildepth" => ac::faildepth(&args),
         "repr" => ac::repr(&args),
+        "repr-nnfa" => repr::nnfa(&args),
+        "repr-cnfa" => repr::cnfa(&args),
         x => {
             eprintln!("unknown check {}", x);
             std::process::exit(2);
